@@ -1,6 +1,8 @@
 mod arena;
 mod enc_arm;
+mod cycles;
 mod enc_x86;
+mod hist;
 mod rng;
 mod util;
 
@@ -18,6 +20,8 @@ fn main() {
     match argv[1].as_str() {
         "enc-x86" => enc_x86::run(&a, &mut out),
         "enc-arm" => enc_arm::run(&a, &mut out),
+        "hist" => hist::run(&a, &mut out),
+        "cycles" => cycles::run(&a, &mut out),
         x => {
             eprintln!("unknown command {x}");
             std::process::exit(2);
